@@ -69,8 +69,15 @@ def op_cds_rt(a):
         raw = bytes(s.pack()) + bytes(a["sfx"])
         d = CdsShortTimestamp.unpack(raw)
         t = CdsShortTimestamp.unpack_from_raw(raw)
+        # read_from_raw on objects with a history: an empty one and one built by from_datetime (whose views were
+        # filled by another route)
         r = CdsShortTimestamp.empty()
         r.read_from_raw(raw)
+        r2 = CdsShortTimestamp.from_datetime(datetime.datetime(1999, 12, 31, 23, 59, 58, 123000, tzinfo=UTC))
+        r2.as_datetime(), r2.as_unix_seconds()
+        r2.read_from_raw(raw)
+        if view(r2) != view(r):
+            return {"read_from_raw": "depends on the object's history", "fresh": view(r), "used": view(r2)}
         u = CdsShortTimestamp.from_unix_days(a["st"]["days"] - 4383, a["st"]["ms"])
         eq = bool(d == s) and bool(s == d) and bool(u == s)
         return {"view": view(s), "len": s.len_packed, "pfield": octs(s.pfield),
@@ -106,7 +113,11 @@ def op_cds_add(a):
     td = a["td"]
 
     def run():
-        s = _mk(a["st"])
+        if a.get("via") == "from_dt":
+            from spacepackets.ccsds.time import CdsShortTimestamp
+            s = CdsShortTimestamp.from_datetime(EPOCH58 + datetime.timedelta(days=a["st"]["days"], milliseconds=a["st"]["ms"]))
+        else:
+            s = _mk(a["st"])
         r = s + datetime.timedelta(days=td["days"], seconds=td["secs"], microseconds=td["us"])
         return {"view": view(r)}
     return outcome(run)
